@@ -2387,7 +2387,8 @@ class Parameters:
 
         p = '.'.join(dynamic_dep.spec.split(':')[0].split('.')[depth+1:])
         if p == 'param':
-            subparams = [sp for sp in list(subobjs[-1].param)]
+            # (the sub-object itself may not be attached yet)
+            subparams = [] if subobjs[-1] is None else [sp for sp in list(subobjs[-1].param)]
         else:
             subparams = [p]
 
